@@ -179,6 +179,34 @@ c.args(self=LOOP_SESSION)
 c.raises(('exceptions.ConnectionClosed', 'ValueError'))
 c.trace("exactly-one-response", t_one_response)
 c.trace("engine-only-after-decode-and-authentication", t_engine_guarded)
+
+
+def t_client_auth_usage_required(ev, outcome, exc, path, I):
+    """With the extended-key-usage check enabled, the engine is entered only on paths that
+    established that the certificate's extension contains the client-authentication usage itself."""
+    import z3
+    from cryptography import x509
+    sess = I.ghost_globals.get('__session__')
+    for i, e in enumerate(ev):
+        if e[0] != 'engine.process_request':
+            continue
+        flag = sess.fields.get('_enable_tls_client_auth')
+        on = I.truth(flag)
+        if on is False or (on is not True and path.is_valid(z3.Not(on))):
+            continue
+        ext = [x for x in ev[:i] if x[0] == 'return' and x[1].endswith('get_extended_key_usage_from_certificate')]
+        if not ext:
+            return "the engine is entered with the usage check enabled although the extension was never read"
+        asked = [x for x in ev[:i] if x[0] == 'contains' and x[1] == ext[-1][2]
+                 and x[3] is x509.oid.ExtendedKeyUsageOID.CLIENT_AUTH]
+        if not asked or not path.is_valid(asked[-1][4]):
+            return ("the engine is entered with the usage check enabled on a path that did not establish that "
+                    "the certificate carries the client-authentication extended key usage")
+    return True
+
+
+c.let('__session__', 'self')
+c.trace("client-authentication-usage-required-when-enabled", t_client_auth_usage_required)
 c.trace("failures-answered-with-the-right-error", t_failures_answered)
 c.trace("oversize-replaced-by-too-large-error", t_sent_is_last_built)
 c.trace("nothing-escapes-after-framing", t_only_framing_raises)
